@@ -27,6 +27,7 @@ var All = map[string]func(*Ctx){
 		c.presenceRule("C01.presence")
 		c.oauthPIDCodec("C01.oauth-pid")
 		c.compareWhole("C01.compare-whole", nil)
+		c.utcInstants("C01.utc")
 		issuers := map[*ssa.Function]bool{}
 		for _, s := range c.Issuances() {
 			issuers[s.Fn] = true
@@ -39,12 +40,15 @@ var All = map[string]func(*Ctx){
 		c.halfAuthUpgradeGated("C02.halfauth-upgrade")
 		c.registryStable("C02.registry")
 		c.secretEntropy("C02.entropy")
+		c.totpValidateDefaults("C02.totp-window")
+		c.perInstanceWiring("C02.per-instance")
 		c.compareWhole("C02.compare-whole", exactPkgs("ab/otp/twofactor/sms2fa", "ab/otp/twofactor/totp2fa"))
 	}),
 	"C03": seq(C03, func(c *Ctx) {
 		c.ctxUserFirst("C03.subject")
 		c.eventsCallShape("C03")
 		c.registryStable("C03.registry")
+		c.utcInstants("C03.clock")
 	}),
 	"C04": seq(C04, func(c *Ctx) {
 		c.vetoOnlyAfterCheck("C04.veto-after-check")
@@ -56,6 +60,7 @@ var All = map[string]func(*Ctx){
 		c.registryStable("C04.registry")
 		c.ctxUserFirst("C04.subject")
 		c.loginLooksUpFirst("C04.lookup-first")
+		c.authFailSubject("C04.fail-subject")
 		c.configVerbatim("C04.config-verbatim", "LockAfter", "LockWindow", "LockDuration")
 		c.compareWhole("C04.compare-whole", exactPkgs("ab/otp", "ab/otp/twofactor/sms2fa", "ab/otp/twofactor/totp2fa"))
 	}),
@@ -80,14 +85,22 @@ var All = map[string]func(*Ctx){
 		c.secretEntropy("C07.entropy")
 		c.halfAuthUpgradeGated("C07.halfauth-upgrade")
 		c.afterHandlersUnconditional("C07.after-unconditional")
-	}),
+		c.perInstanceWiring("C07.per-instance")
+	}, borrow(C11, "C11.family", "C07.cookie-loaded", func(o Obligation) bool {
+		// the remember cookie reaches the middleware only if the request's cookie state was loaded
+		return o.Rule == "C11.family" && strings.Contains(o.Func, "LoadClientState") && strings.Contains(o.Key, "ReadState(")
+	})),
 	"C08": seq(C08, func(c *Ctx) {
 		c.mwOutermost("C08.outermost")
 		c.apiStatusVerbatim("C08.api-status")
 		c.refusalConfigMapped("C08.refusal-config")
 		c.routeRequirements("C08.route-reqs")
 		c.clientStoresPerRequest("C08.stores-per-request")
-	}),
+	}, borrow(C18, "C18.propagate", "C08.load-err", func(o Obligation) bool {
+		// a storage failure while loading the user is the 500 outcome: the loaders
+		// the middleware relies on hand every such error back
+		return o.Rule == "C18.propagate" && (strings.Contains(o.Func, "CurrentUser") || strings.Contains(o.Func, "MountedMiddleware2") || strings.Contains(o.Func, "currentUser"))
+	})),
 	"C09": seq(C09, (*Ctx).flushDiscipline, func(c *Ctx) {
 		c.flushUnmodified("C09.queue")
 		c.noStateAfterWrite("C09.before-write")
@@ -97,8 +110,12 @@ var All = map[string]func(*Ctx){
 	}, borrow(C10, "C10.delall-contract", "C09.delall-contract", func(o Obligation) bool { return o.Rule == "C10.delall-contract" })),
 	"C10": seq(C10, (*Ctx).flushDiscipline, func(c *Ctx) {
 		c.delAllQueued("C10.delall-queued")
+		c.redirectorWrites("C10.answer-written")
 		c.zeroValueInvoke("C10.zero-value", func(f *ssa.Function) bool { return pkgOf(f) == "ab/logout" })
-	}),
+	}, borrow(func(c *Ctx) { c.nilResultUse("C18.nil-result") }, "C18.nil-result", "C10.nil-result", func(o Obligation) bool {
+		// logout does its work whoever (if anybody) the session names
+		return o.Rule == "C18.nil-result" && strings.Contains(o.Func, "ab/logout.")
+	})),
 	"C11": seq(C11, func(c *Ctx) {
 		c.noStateAfterWrite("C11.before-write")
 		c.readStateErrors("C11.read-err")
@@ -109,12 +126,14 @@ var All = map[string]func(*Ctx){
 		c.localizeFallback("C12.status-text")
 		c.secretEntropy("C12.entropy")
 		c.compareWhole("C12.compare-whole", exactPkgs("ab/otp", "ab/otp/twofactor/sms2fa", "ab/otp/twofactor/totp2fa"))
+		c.totpValidateDefaults("C12.totp-window")
 		c.issuanceGated("C12.issued-only", exactPkgs("ab/otp", "ab/otp/twofactor/sms2fa", "ab/otp/twofactor/totp2fa"))
 	}),
 	"C13": seq(C13, (*Ctx).c12Recovery, func(c *Ctx) {
 		c.localizeFallback("C13.status-text")
 		c.halfAuthUpgradeGated("C13.halfauth-upgrade")
 		c.secretEntropy("C13.entropy")
+		c.totpValidateDefaults("C13.totp-window")
 		c.compareWhole("C13.compare-whole", inPkgs("ab/otp/twofactor"))
 	}, withExplanation(C09), withExplanation(C10), withExplanation(func(c *Ctx) {
 		c.gateOnly = true
@@ -155,7 +174,9 @@ var All = map[string]func(*Ctx){
 			c.lockStateStructure(uls)
 		}
 	}),
-	"C17": seq(C17, (*Ctx).hasherPassThrough, (*Ctx).c19Whitelist,
+	"C17": seq(C17, (*Ctx).hasherPassThrough, (*Ctx).c19Whitelist, func(c *Ctx) {
+		c.storedListInPlace("C17.stored-list", nil)
+	},
 		// what is mailed is assembled from this request's values only: the rules
 		// on shared state (C20), for the functions that build and send mail
 		borrow(C20, "C20.", "C17.mail-shared.", func(o Obligation) bool {
@@ -172,10 +193,13 @@ var All = map[string]func(*Ctx){
 		c.noCredentialRestore("C18.no-restore")
 		c.deferredStorageError("C18.defer-err")
 	}, borrow(C05, "C05.supersede", "C18.mail-after-save", func(o Obligation) bool { return o.Rule == "C05.supersede" })),
-	"C19": seq(C19, (*Ctx).hasherPassThrough),
+	"C19": seq(C19, (*Ctx).hasherPassThrough, func(c *Ctx) {
+		c.confirmPairChecked("C19.confirm-pair")
+	}),
 	"C20": seq(C20, func(c *Ctx) {
 		c.moduleCopied("C20.instance")
 		c.ctxDataReadOnly("C20.ctx-data")
+		c.perInstanceWiring("C20.per-instance")
 	}),
 }
 
